@@ -28,6 +28,21 @@ impl FieldsOnCorrectType {
     }
 }
 
+/// `__typename` fields at the root of a selection set, also when they are wrapped in inline
+/// fragments without a type condition (`... { __typename }` selects on the same type).
+fn count_root_typename_fields(items: &[Selection]) -> usize {
+    items
+        .iter()
+        .map(|selection| match selection {
+            Selection::Field(field) if field.name == "__typename" => 1,
+            Selection::InlineFragment(inline_fragment) if inline_fragment.type_condition.is_none() => {
+                count_root_typename_fields(&inline_fragment.selection_set.items)
+            }
+            _ => 0,
+        })
+        .sum()
+}
+
 impl<'a> OperationVisitor<'a, ValidationErrorContext> for FieldsOnCorrectType {
     fn enter_operation_definition(
         &mut self,
@@ -37,16 +52,12 @@ impl<'a> OperationVisitor<'a, ValidationErrorContext> for FieldsOnCorrectType {
     ) {
         // https://spec.graphql.org/October2021/#note-bc213
         if let OperationDefinition::Subscription(subscription) = operation {
-            for selection in &subscription.selection_set.items {
-                if let Selection::Field(field) = selection {
-                    if field.name == "__typename" {
-                        user_context.report_error(ValidationError {
-                          error_code: self.error_code(),
-                          message: "`__typename` may not be included as a root field in a subscription operation".to_string(),
-                          locations: vec![subscription.position],
-                        });
-                    }
-                }
+            for _ in 0..count_root_typename_fields(&subscription.selection_set.items) {
+                user_context.report_error(ValidationError {
+                  error_code: self.error_code(),
+                  message: "`__typename` may not be included as a root field in a subscription operation".to_string(),
+                  locations: vec![subscription.position],
+                });
             }
         }
     }
